@@ -15,6 +15,7 @@ from typing import Union
 from jsonpath.function_extensions.filter_function import ExpressionType
 from jsonpath.function_extensions.filter_function import FilterFunction
 
+from .exceptions import JSONPathIndexError
 from .exceptions import JSONPathSyntaxError
 from .exceptions import JSONPathTypeError
 from .filter import CURRENT_KEY
@@ -346,6 +347,14 @@ class Parser:
 
             stream.next_token()
 
+    def _parse_index(self, token: Token) -> int:
+        try:
+            return int(token.value)
+        except ValueError:
+            # More digits than `int()` will convert
+            # (`sys.get_int_max_str_digits()`).
+            raise JSONPathIndexError("index out of range", token=token) from None
+
     def parse_slice(self, stream: TokenStream) -> SliceSelector:
         """Parse a slice JSONPath expression from a stream of tokens."""
         start_token = stream.next_token()
@@ -357,17 +366,17 @@ class Parser:
         if not start_token.value:
             start: Optional[int] = None
         else:
-            start = int(start_token.value)
+            start = self._parse_index(start_token)
 
         if not stop_token.value:
             stop: Optional[int] = None
         else:
-            stop = int(stop_token.value)
+            stop = self._parse_index(stop_token)
 
         if not step_token.value:
             step: Optional[int] = None
         else:
-            step = int(step_token.value)
+            step = self._parse_index(step_token)
 
         return SliceSelector(
             env=self.env,
@@ -408,7 +417,7 @@ class Parser:
                     IndexSelector(
                         env=self.env,
                         token=stream.current,
-                        index=int(stream.current.value),
+                        index=self._parse_index(stream.current),
                     )
                 )
             elif stream.current.kind == TOKEN_BARE_PROPERTY:
@@ -540,7 +549,14 @@ class Parser:
         value = stream.current.value
         if "e" not in value.lower():
             # Going through `float` would round integers above 2**53.
-            return IntegerLiteral(value=int(value))
+            try:
+                return IntegerLiteral(value=int(value))
+            except ValueError:
+                # More digits than `int()` will convert
+                # (`sys.get_int_max_str_digits()`).
+                raise JSONPathSyntaxError(
+                    "number literal out of range", token=stream.current
+                ) from None
 
         # Convert to float first to handle scientific notation.
         try:
